@@ -78,6 +78,36 @@ CHECKS = {
             'Trusted: mc/refmodel/mgcycle.py (textbook recursion). The '
             'stubbing is validated by identical traces with real kernels '
             'on small shapes.', '3/C05'),
+    'C07': ('E1', 'model_checking',
+            'bounded exhaustive enumeration of simulation configurations '
+            '(full product mapping x anisotropy + deviation-bounded '
+            'lattice); all gradient entries compared with an exact discrete '
+            'reference derivative; finite differences of the real misfit '
+            'bind the reference to the code',
+            'Full product 6 mappings x 4 cases plus all configurations with '
+            '<= 1 (quick) / <= 2 (thorough) deviations over grid, source '
+            'type, receiver type, relative receivers, #sources, '
+            '#frequencies, NaN pattern, noise form, strength. The gradient '
+            'is a vector and the directional derivative is linear in the '
+            'direction, so agreement of all entries (1e-8) is agreement for '
+            'every perturbation direction; FD (two steps, second order) on '
+            'a covering subset; real-solver subset with tol 1e-11.',
+            'Trusted: reference FIT operator (C02), sparse LU; sources and '
+            'receiver sampling are emg3d forward code used as linear maps '
+            '(C09/C10). Bulk in exact-solve mode (assume/guarantee with '
+            'C01/C02).', '3/C07'),
+    'C08': ('E1', 'model_checking',
+            'bounded exhaustive enumeration of problems x gridding modes x '
+            'execution modes; real jvec on the full model basis and real '
+            'jtvec on the full (complex) data basis give the complete '
+            'matrices J and T; matrix identities',
+            'For every problem (4 anisotropy/mapping/source/receiver '
+            'combinations) x gridding in {same, single, frequency, source, '
+            'both} x {memory, file_dir}: T = [Re J^T, Im J^T] decides '
+            'Re<w,Jv> = <J^T w,v> for ALL v, w; gridding same: J equals the '
+            'exact reference Jacobian; jtvec(weighted residual) = gradient.',
+            'Model grid 4^3, computational grids 8^3; exact-solve mode '
+            '(1e-8) plus real-solver subset (2e-6).', '3/C08'),
 }
 
 NOT_YET = "check not built yet in this round (planned in DESIGN.md section 3)"
